@@ -8,11 +8,11 @@ import numpy as np
 from ..common import q2s, run_driver, seed_rng
 from ..qnum import Q, installed
 from ..sllib import TIME_LATTICE, Fixture, random_space_intervals, result_str
-from ..slchecks import RealOps, describe, random_real_mesh, with_generated
+from ..slchecks import RealOps, corr_vectors, describe, random_real_mesh, with_generated
 from .. import numref
 from .C04 import translate  # noqa: F401
 
-PROP_MODS = ['Stbem.Props.C07', 'Stbem.Props.PanelsTie']
+PROP_MODS = ['Stbem.Props.C07', 'Stbem.Props.PanelsTie', 'Stbem.Props.SLRestTie']
 RULE = ('correspondence (exact): the real evaluate (in-element split with mirrored log rules, seam-aware choice of the '
         'graded rule, pre-evaluated curve points of _init_elems), evaluate_exact and the evaluation plan on Q numbers '
         'against the Lean model over all point classes (inside, at an end point, within 1e-10 relative, neighbouring '
@@ -26,6 +26,10 @@ TRUSTED = [
     'control flow of __integrate / bilform / evaluate / MP_SL_matrix_col regenerated from the source on every run '
     '(translate/panels.py -> lean/Stbem/Gen/Panels.lean) and proved equal to the hand-written model for all inputs '
     '(Props/PanelsTie.lean); the translator is validated on every run by exact execution of the real methods',
+    'evaluate_exact (case distinction, closed forms with their arguments), evaluate_vector, potential(_vector), rhs_vector '
+    'regenerated from the source on every run (translate/slrest.py -> Gen/SLRest.lean) and proved equal to the hand model '
+    '(Props/SLRestTie.lean); the driver answers `sl evalx` also as `sl genevalx`, and the real vector methods are run on exact '
+    'numbers against `sl genevalvec / genpotvec / genrhsvec`',
     'the 1e-8 / 5e-4 / 2e-3 accuracy zones are claims about a fixed rule on a non-polynomial integrand: search only (partial)',
 ]
 ASSUMPTIONS = ['exact arithmetic in the theorems']
@@ -69,7 +73,7 @@ def correspond(res, tier):
                             v = fx.SL.evaluate_exact(e, Q(t), Q(xh))
                             lines.append('sl evalx %s %s %s' % (e.encode(), q2s(t), q2s(xh)))
                             expect.append('none' if v is None else result_str(v))
-        with_generated(lines, expect)   # `sl geneval`: the evaluate regenerated from the source (Gen/Panels.lean)
+        with_generated(lines, expect)   # `sl geneval`, `sl genevalx`: the functions regenerated from the source (Gen/Panels.lean, Gen/SLRest.lean)
         out = run_driver(lines)
         for line, want, got in zip(lines, expect, out):
             if want is None:
@@ -81,6 +85,7 @@ def correspond(res, tier):
             if want != got:
                 res.broken_obligation('correspondence C07: model and code differ', 'line: %s\npython %s\nmodel %s' % (line, want[:300], got[:300]))
                 return
+    corr_vectors(res, tier, 'C07v')
     res.sample(dict(point_classes=['end points', 'inside', 'within 1e-11 relative', 'neighbouring side', 'seam', '0 and L',
                                    'equidistant from both ends (opposite point of a closed curve)']))
 
